@@ -676,11 +676,22 @@ func (m *v4mon) onRelease(s v4id, now time.Time) {
 			st.kind = "forgotten" // released by the line's other device: nothing is asserted about it any more
 		}
 	}
-	// the client released: none of its offers is outstanding any more
+	// the client released: its own offer is not outstanding any more. An offer made to the line's other device
+	// (another MAC) is neither outstanding nor demanded back at once: like that device's bindings above, nothing is
+	// asserted about it any more (the statement does not say that one device's RELEASE ends another device's offer).
 	for _, mac := range sortedKeys(m.offers) {
-		if m.offers[mac].line == s.line {
-			m.cancelOffer(mac, "")
+		o := m.offers[mac]
+		if o.line != s.line {
+			continue
 		}
+		if mac == s.mac {
+			m.cancelOffer(mac, "")
+			continue
+		}
+		if st := m.vals[o.val]; st != nil && st.kind == "offered" && st.lastMAC == mac {
+			st.kind = "forgotten"
+		}
+		delete(m.offers, mac)
 	}
 }
 
@@ -718,9 +729,9 @@ func (m *v4mon) onDecline(s v4id, ip net.IP, now time.Time) {
 	if o := m.offers[s.mac]; o != nil {
 		if o.val == val {
 			delete(m.offers, s.mac)
-		} else {
-			m.cancelOffer(s.mac, "")
 		}
+		// a DECLINE naming some other value says nothing about the client's outstanding offer: it stays outstanding
+		// (and has to come back after one lease time like any abandoned offer)
 	}
 }
 
@@ -1457,7 +1468,13 @@ func (x *v4run) demand(now time.Time, second bool) {
 				reason = "abandoned-offer"
 			}
 		case st.kind == "cancelled":
-			reason = "abandoned-offer"
+			// the offer became moot (the client released it, or the server itself offered / bound the client
+			// something else). The statement names released and expired bindings, not offers: what is demanded is
+			// that such a value is back no later than an abandoned offer would be, i.e. at the second probe (one
+			// lease time + 61 s after the history), not at once.
+			if second {
+				reason = "cancelled-offer"
+			}
 		case st.kind == "released":
 			reason = "released"
 		}
